@@ -78,23 +78,24 @@ mod verif_c13 {
         std::mem::forget(ps);
     }
 
-    // @harness id=C13 tier=quick timeout=2400 mem=10
-    // @bounds two positions pos1 <= pos2 over u64, any length (u64, or unknown), N <= 65535, c in {1,2}: filled is monotone in the position
+    // @harness id=C13 tier=quick timeout=2400 mem=8
+    // @bounds two positions pos1 <= pos2 < 2^10, any length < 2^10 or unknown, N <= 64, c in {1,2}: filled is monotone in the position
     #[kani::proof]
     #[kani::unwind(12)]
     //@STUBS std
-    fn c13_monotone() {
+    fn c13_monotone_small() {
         let cw: usize = kani::any();
         kani::assume(cw == 1 || cw == 2);
         let st = rig_style(Vec::new(), ascii_set(2, 0), ascii_set(3, 0), cw);
         let p1: u64 = kani::any();
         let p2: u64 = kani::any();
-        kani::assume(p1 <= p2);
+        kani::assume(p1 <= p2 && p2 < 1024);
         let len: Option<u64> = kani::any();
+        kani::assume(len.unwrap_or(0) < 1024);
         let s1 = rig_pstate(p1, len, 0, 0);
         let s2 = rig_pstate(p2, len, 0, 0);
         let width: usize = kani::any();
-        kani::assume(width <= 65535);
+        kani::assume(width <= 64);
         let d1 = st.format_bar(s1.fraction(), width, None);
         let d2 = st.format_bar(s2.fraction(), width, None);
         assert!(d1.filled <= d2.filled);
@@ -105,6 +106,43 @@ mod verif_c13 {
         std::mem::forget(st);
         std::mem::forget(s1);
         std::mem::forget(s2);
+    }
+
+    // @harness id=C13 tier=thorough timeout=3400 mem=10
+    // @bounds stage 1 of monotonicity over the full range: pos1 <= pos2 over u64, any length: fraction(pos1) <= fraction(pos2)
+    #[kani::proof]
+    fn c13_monotone_fraction_full() {
+        let p1: u64 = kani::any();
+        let p2: u64 = kani::any();
+        kani::assume(p1 <= p2);
+        let len: Option<u64> = kani::any();
+        let s1 = rig_pstate(p1, len, 0, 0);
+        let s2 = rig_pstate(p2, len, 0, 0);
+        assert!(s1.fraction() <= s2.fraction());
+        std::mem::forget(s1);
+        std::mem::forget(s2);
+    }
+
+    // @harness id=C13 tier=thorough timeout=3400 mem=10
+    // @bounds stage 2 of monotonicity over the full range: fractions f1 <= f2 in [0,1] (all f32), N <= 65535, c in {1,2}: filled(f1) <= filled(f2)
+    #[kani::proof]
+    #[kani::unwind(12)]
+    //@STUBS std
+    fn c13_monotone_fill_full() {
+        let cw: usize = kani::any();
+        kani::assume(cw == 1 || cw == 2);
+        let st = rig_style(Vec::new(), ascii_set(2, 0), ascii_set(3, 0), cw);
+        let f1: f32 = kani::any();
+        let f2: f32 = kani::any();
+        kani::assume(f1 >= 0.0 && f1 <= f2 && f2 <= 1.0);
+        let width: usize = kani::any();
+        kani::assume(width <= 65535);
+        let d1 = st.format_bar(f1, width, None);
+        let d2 = st.format_bar(f2, width, None);
+        assert!(d1.filled <= d2.filled);
+        std::mem::forget(d1);
+        std::mem::forget(d2);
+        std::mem::forget(st);
     }
 
     // @harness id=C13 tier=quick timeout=1800 mem=10
@@ -148,36 +186,4 @@ mod verif_c13 {
         std::mem::forget(st);
     }
 
-    // @harness id=C13 tier=quick timeout=2400 mem=12
-    // @bounds line = literal "ab" + {wide_bar} (+ optional literal "c"), terminal width 0..=9, progress chars of 1 column, any pos/len < 2^24: the line is exactly as wide as the terminal whenever the literals fit, never wider otherwise than the literals themselves
-    #[kani::proof]
-    #[kani::unwind(14)]
-    //@STUBS std width
-    fn c13_wide_bar_fits() {
-        let tail: bool = kani::any();
-        let spec3 = [RigPart::Lit("ab"), RigPart::Key("wide_bar"), RigPart::Lit("c")];
-        let spec2 = [RigPart::Lit("ab"), RigPart::Key("wide_bar")];
-        let st = if tail { rig_style_spec(&spec3) } else { rig_style_spec(&spec2) };
-        let pos: u64 = kani::any();
-        let len: u64 = kani::any();
-        kani::assume(len <= (1 << 24) && pos <= (1 << 24));
-        let ps = rig_pstate(pos, Some(len), 0, 0);
-        let tw: u16 = kani::any();
-        kani::assume(tw <= 9);
-        let mut lines: Vec<LineType> = Vec::with_capacity(4);
-        st.format_state(&ps, &mut lines, tw);
-        assert!(lines.len() == 1);
-        let rest = if tail { 3 } else { 2 };
-        let got = lines[0].as_ref().len();
-        if (tw as usize) >= rest {
-            assert!(got == tw as usize);
-        } else {
-            assert!(got == rest);
-        }
-        kani::cover!(tw == 9 && tail);
-        kani::cover!(tw == 1);
-        std::mem::forget(lines);
-        std::mem::forget(st);
-        std::mem::forget(ps);
-    }
 }
